@@ -49,12 +49,14 @@ def expected_from_orders(orders, tick):
 for it in range(count):
     tick = rnd.choice([1, 1, 2, 3, 5])
     s = rnd.randrange(1 << 40)
-    env = core.StepEnv(s, rnd.randrange(1000), tick, 1000)
+    t0_env = rnd.randrange(1000)
+    env = core.StepEnv(s, t0_env, tick, 1000)
     envn = core.StepEnvNumpy(s, 0, tick, 1000)
     centre = rnd.randrange(30, 200)
     steps = rnd.randrange(1, 5)
     for st in range(steps):
-        k = rnd.randrange(2, 12)
+        # every fourth step (after the first) is idle: nothing is submitted at all
+        k = 0 if (st > 0 and rnd.random() < 0.25) else rnd.randrange(2, 12)
         sides, vols, trs, prices = [], [], [], []
         for _ in range(k):
             bid = rnd.random() < 0.5
@@ -66,8 +68,9 @@ for it in range(count):
             vol = rnd.randrange(1, 40) + (100 if bid else 0)
             env.place_order(bid, vol, rnd.randrange(1000), price=price)
             sides.append(bid); vols.append(vol); trs.append(7); prices.append(price)
-        envn.submit_limit_orders((np.array(sides), np.array(vols, dtype=np.uint32), np.array(trs, dtype=np.uint32), np.array(prices, dtype=np.uint32)))
-        if rnd.random() < 0.3 and env.get_orders():
+        if k:
+            envn.submit_limit_orders((np.array(sides), np.array(vols, dtype=np.uint32), np.array(trs, dtype=np.uint32), np.array(prices, dtype=np.uint32)))
+        if k and rnd.random() < 0.3 and env.get_orders():
             env.cancel_order(rnd.randrange(len(env.get_orders())))
         env.step(); envn.step()
         states += 1
@@ -77,6 +80,12 @@ for it in range(count):
             trades = e.get_trades()
             md = e.get_market_data()
             tv = int(md["trade_vol"][-1]) if len(md["trade_vol"]) else 0
+            # the same quantity from the trade log: volume of the trades time-stamped inside the last step
+            lo = (t0_env if name == "StepEnv" else 0) + st * 1000
+            tv_log = sum(int(tr[3]) for tr in trades if lo <= int(tr[0]) < lo + 1000)
+            if tv_log != tv:
+                fails.append("%s: get_market_data['trade_vol'][-1] = %d but the trades logged in the last step sum to %d (%s seed=%d step=%d)" % (name, tv, tv_log, name, s, st))
+            tv = tv_log
             # traded volume of the last step, from the trade log
             t_end = e.time if hasattr(e, "time") else None
             l1 = [int(x) for x in getattr(e, l1m)()]
